@@ -211,6 +211,17 @@ func (a Attr) UnmarshalToType(data []byte) (any, error) {
 		return GetZeroValue(a.Type, a.Nullable), nil
 	}
 
+	// encoding/json treats null as a no-op, which would silently turn it
+	// into the zero value of a non-nullable string or time attribute. (A nil
+	// byte slice is marshaled as null, so null stays accepted for bytes.)
+	if string(data) == "null" && (a.Type == AttrTypeString || a.Type == AttrTypeTime) {
+		return nil, NewErrInvalidFieldValueInBody(
+			a.Name,
+			string(data),
+			GetAttrTypeString(a.Type, a.Nullable),
+		)
+	}
+
 	var (
 		v   any
 		err error
